@@ -48,7 +48,7 @@ func c15Goal(s *sys) (bool, []string) {
 	return len(why) == 0, why
 }
 
-const c15Faults = "crash stale linger break hang rbroken gone lockfail createquota createrate createfail destroyfail listfail restart"
+const c15Faults = "crash stale linger break hang rbroken gone lockfail createquota createrate createfail destroyfail listfail restart killfail"
 
 func c15Models(thorough bool) []sysCfg {
 	user := "prio0 cancel wait "
